@@ -224,10 +224,8 @@ def judge_written(string: str | None, written: bytes | None, write_error: BaseEx
         return []
     if written is None:
         return [Problem('write-nothing-queued', '', 'Processes.write queued nothing')]
-    try:
-        expected = (string + '\n').encode('ascii')
-    except UnicodeEncodeError:
-        return [Problem('write-accepted-non-ascii', '', 'write accepted a non-ASCII string')]
+    # the pipe carries ASCII: characters outside it may be escaped by the writer (\\xNN / \\uNNNN), never dropped or raised on
+    expected = (string + '\n').encode('ascii', 'backslashreplace')
     if written != expected:
         return [Problem('write-bytes-differ', '', f'queued {written[:80]!r} for {string[:80]!r}')]
     return []
